@@ -3,13 +3,13 @@ from io import BytesIO
 from buidl.bech32 import decode_bech32, encode_bech32_checksum
 from buidl.ecc import S256Point
 from buidl.helper import (
-    decode_base58,
     encode_base58_checksum,
     encode_varstr,
     hash160,
     little_endian_to_int,
     int_to_byte,
     int_to_little_endian,
+    raw_decode_base58,
     read_varstr,
     sha256,
 )
@@ -638,12 +638,18 @@ class WitnessScript(Script):
 def address_to_script_pubkey(s):
     if s[:1] in ("1", "m", "n"):
         # p2pkh
-        h160 = decode_base58(s)
-        return P2PKHScriptPubKey(h160)
+        raw = raw_decode_base58(s)
+        # version byte (mainnet or testnet/signet/regtest) and a hash160
+        if len(raw) != 21 or raw[0] not in (0x00, 0x6F):
+            raise ValueError(f"not a p2pkh address: {s}")
+        return P2PKHScriptPubKey(raw[1:])
     elif s[:1] in ("2", "3"):
         # p2sh
-        h160 = decode_base58(s)
-        return P2SHScriptPubKey(h160)
+        raw = raw_decode_base58(s)
+        # version byte (mainnet or testnet/signet/regtest) and a hash160
+        if len(raw) != 21 or raw[0] not in (0x05, 0xC4):
+            raise ValueError(f"not a p2sh address: {s}")
+        return P2SHScriptPubKey(raw[1:])
     elif s[:4] in ("bc1q", "tb1q") or s[:6] == "bcrt1q":
         # a version 0 witness program is 20 bytes (p2wpkh) or 32 bytes (p2wsh)
         program = decode_bech32(s)[2]
